@@ -18,7 +18,9 @@ for n in names:
     sigs = sorted(set(re.findall(r'signature="([^"]+)"', r.stdout)))
     summ = re.findall(r'SUMMARY[^\n]*', r.stdout)
     if 'detected_by_check' in meta and (meta.get('detected_by_check') != det or meta.get('signatures') != sigs):
-        meta.setdefault('history', []).append({'detected_by_check': meta.get('detected_by_check'), 'signatures': meta.get('signatures')})
+        if not isinstance(meta.get('history'), list):
+            meta['history'] = [meta['history']] if meta.get('history') else []
+        meta['history'].append({'detected_by_check': meta.get('detected_by_check'), 'signatures': meta.get('signatures')})
     meta['detected_by_check'] = det
     meta['signatures'] = sigs
     json.dump(meta, open(mp, 'w'), indent=1)
